@@ -522,6 +522,189 @@ def judge_findiff(spec) -> Outcome:
     return out
 
 
+# ---------------------------------------------------------------------------------------------
+# derivatives through Monte-Carlo and numerical integrals
+
+
+@st.composite
+def strat_integrals(draw, tier):
+    from . import c10
+
+    mode = draw(st.sampled_from(['montecarlo', 'montecarlo', 'integrate']))
+    if mode == 'integrate':
+        case = draw(c10.strat_integrate(tier, differentiable=True))
+        # every parameter of the integrand is free here
+        def free(s):
+            if isinstance(s, list):
+                if s and s[0] == 'Beta':
+                    s[5] = 0
+                    s[3] = s[4] = None
+                for c in s:
+                    free(c)
+        free(case['roots'][0])
+        case['mode'] = mode
+        return case
+    big = tier == 'thorough'
+    n_vars = draw(st.integers(1, 2))
+    table, info = draw(gen.tables(max_rows=4 if big else 3, with_choice=draw(st.booleans())))
+    placeholders = [f'__d{i}' for i in range(n_vars)]
+    dnames = draw(st.lists(st.sampled_from(c10.DRAW_NAMES), min_size=n_vars, max_size=n_vars, unique=True))
+    user_types, dtypes = {}, []
+    for i in range(n_vars):
+        t = draw(st.sampled_from(c10.USER_TYPES))
+        user_types.setdefault(t, [draw(gen.dyadic(-1, 1)), draw(gen.dyadic(-1, 1, 16)), draw(gen.dyadic(-1, 1, 16)), 'float'])
+        dtypes.append(t)
+    info2 = dict(info)
+    info2['real'] = list(info['real']) + placeholders + placeholders
+    g = gen.TreeGen(draw, info2, max_betas=3, max_nodes=18, differentiable=True, logit=info.get('choice') is not None)
+    g.not_in_linutil = set(placeholders)
+    inner = g.real(draw(st.integers(1, 3)))
+    mapping = {p_: (dnames[i], dtypes[i]) for i, p_ in enumerate(placeholders)}
+    used = {n[1] for n in refsem.walk(inner, g.shared) if n[0] == 'Var' and n[1] in mapping}
+    pool = [n for n in gen.BETA_NAMES if n not in g.betas and n not in g.beta_pool]
+    for i, p_ in enumerate(placeholders):
+        if p_ not in used or i == 0:
+            # the classical random coefficient: (mean + scale * draw) * attribute
+            b = ['Beta', pool.pop(0), draw(gen.dyadic(-1, 1)), None, None, 0]
+            inner = ['Plus', inner, ['Times', ['Times', b, ['Var', p_]], g._real_leaf()]]
+    shape = draw(st.sampled_from(['plain', 'log_of_exp', 'log_of_exp']))
+    root = ['MonteCarlo', inner] if shape == 'plain' else ['log', ['MonteCarlo', ['exp', inner]]]
+    shared = [c10._substitute(s_, mapping) for s_ in g.shared]
+    root = c10._substitute(root, mapping)
+    return dict(table=table, shared=shared, roots=[root], betas={}, overloads=draw(st.booleans()), np_seed=0, mode=mode,
+                draws=[[dnames[i], dtypes[i]] for i in range(n_vars)], user_types=user_types, R=draw(st.integers(1, 5)) * 2)
+
+
+def _observe_integrals(case):
+    import biogeme.biogeme as bio
+    from biogeme.parameters import Parameters
+    from . import c10
+
+    def database():
+        d = build.build_database(case['table'])
+        rng = {}
+        for t, const in case.get('user_types', {}).items():
+            rng[t] = ((lambda n, r, const=const: c10.user_series(const, n, r)), f'user-defined {t}')
+        if rng:
+            d.set_random_number_generators(rng)
+        return d
+    R = case.get('R', 2)
+    res = {}
+    e = build.Builder(case['shared'], overloads=case['overloads']).build(case['roots'][0])
+    d = e.get_value_and_derivatives(database=database(), number_of_draws=R, gradient=True, hessian=True, bhhh=True,
+                                    aggregation=False, prepare_ids=True)
+    res['dis'] = dict(f=_arr(d.functions), g=_arr(d.gradients), h=_arr(d.hessians), b=_arr(d.bhhhs))
+    e1 = build.Builder(case['shared'], overloads=case['overloads']).build(case['roots'][0])
+    a = e1.get_value_and_derivatives(database=database(), number_of_draws=R, gradient=True, hessian=False, bhhh=False,
+                                     aggregation=True, prepare_ids=True)
+    res['agg_g_only'] = dict(f=float(a.function), g=_arr(a.gradient))
+    e2 = build.Builder(case['shared'], overloads=case['overloads']).build(case['roots'][0])
+    params = Parameters()
+    params.set_value(name='number_of_threads', value=1)
+    params.set_value(name='number_of_draws', value=R)
+    the = bio.BIOGEME(database(), e2, parameters=params)
+    the.save_iterations = the.generate_html = the.generate_pickle = False
+    res['bio_names'] = list(the.free_beta_names)
+    x = [case['point'][n] for n in the.free_beta_names]
+    r = the.calculate_likelihood_and_derivatives(x, scaled=False, hessian=True, bhhh=True)
+    res['bio'] = dict(f=float(r.function), g=_arr(r.gradient), h=_arr(r.hessian), b=_arr(r.bhhh))
+    return res
+
+
+def judge_integrals(case) -> Outcome:
+    from . import c10
+
+    out = Outcome()
+    root = case['roots'][0]
+    point = _full_point(case)
+    names = refsem.free_names(root, case['shared'])
+    k = len(names)
+    if k == 0:
+        out.skipped = 'no free parameter in the formula'
+        return out
+    index = {n: i for i, n in enumerate(names)}
+    rows = build.table_rows(case['table'])
+    n_rows = len(rows)
+    mode = case['mode']
+    R = case.get('R', 0)
+    draw_names = sorted(n for n, _ in case.get('draws', []))
+    type_of = dict((n, t) for n, t in case.get('draws', []))
+    series = {n: np.asarray(c10.user_series(case['user_types'][type_of[n]], n_rows, R), dtype=float) for n in draw_names}
+
+    def env_for(i, row, free_index, betas):
+        dbr = None
+        if mode == 'montecarlo':
+            dbr = [{n: float(series[n][i, r]) for n in draw_names} for r in range(R)]
+        return refsem.Env(row=row, betas=betas, shared=case['shared'], free_index=free_index, draws_by_r=dbr)
+    try:
+        jets = []
+        for i, row in enumerate(rows):
+            v = refsem.evaluate(root, env_for(i, row, {}, point), refsem.EVAlg())
+            if v.e > 1e-6 * (1 + abs(v.v)):
+                raise refsem.IllPosed('error bound')
+            j = refsem.evaluate(root, env_for(i, row, index, point), refsem.JetAlg(k))
+            if not (math.isfinite(j.v) and np.all(np.isfinite(j.g)) and np.all(np.isfinite(j.h))):
+                raise refsem.IllPosed('non-finite reference derivative')
+            jets.append(j)
+            # finite differences of the reference value guard the oracle (kinks of min / max)
+            for q, n in enumerate(names):
+                hstep = 1e-5 * (1 + abs(point[n]))
+                vals = [refsem.evaluate(root, env_for(i, row, {}, dict(point, **{n: point[n] + sgn * hstep})), refsem.JetAlg(0)).v
+                        for sgn in (1, -1)]
+                fd = (vals[0] - vals[1]) / (2 * hstep)
+                if abs(fd - j.g[q]) > 1e-4 * (1 + abs(fd) + abs(j.g[q])) + 1e-2 * max(1.0, float(np.max(np.abs(j.h)))) * hstep:
+                    raise refsem.IllPosed('reference gradient not confirmed by finite differences (kink?)')
+    except (refsem.IllPosed, OverflowError, ZeroDivisionError) as e:
+        out.skipped = 'ill-posed: ' + str(e)[:50]
+        return out
+    f_ref = np.array([j.v for j in jets])
+    g_ref = np.array([j.g for j in jets]).reshape(n_rows, k)
+    h_ref = np.array([j.h for j in jets]).reshape(n_rows, k, k)
+    b_ref = np.array([np.outer(g, g) for g in g_ref]).reshape(n_rows, k, k)
+    gs = max(1.0, float(np.max(np.abs(g_ref))))
+    hs = max(1.0, float(np.max(np.abs(h_ref))), gs)
+    bs = max(1.0, gs * gs)
+    fs = max(1.0, float(np.max(np.abs(f_ref))))
+    # quadrature accuracy for Integrate (the engine uses a fixed-node rule), machine accuracy for Monte-Carlo
+    rt = 1e-5 if mode == 'integrate' else RTOL
+    feats = features(case, root)
+    if shared_under_value_only_context(case, root):
+        feats.add('shared_subtree_also_under_comparison')
+    prefix = ''.join(f'[{f}]' for f in sorted(feats)) + f'{mode}:'
+    out.classes += [f'mode={mode}', f'free={min(k, 4)}', f'R={R}' if mode == 'montecarlo' else f'integrand={case.get("kind")}']
+    out.nontrivial = k >= 2 and float(np.max(np.abs(h_ref))) > 0
+    res = isolate.call(_observe_integrals, dict(case, point=point))
+    where = f' for {refsem.render(root, case["shared"])[:250]} at {point}' + (f', draws {case["draws"]} R={R}' if mode == 'montecarlo' else '')
+    if not res['ok']:
+        out.fail(f'{prefix}raises:{res["exc_type"]}', f'{res["exc_type"]}: {res["exc_msg"][:300]}' + where)
+        return out
+    o = res['value']
+
+    several = ':several_parameters' if mode == 'integrate' and k >= 2 else ''
+
+    def chk(key, got, ref, scale, what):
+        if key.endswith('hessian'):
+            key += several
+        a, b = (None if got is None else np.asarray(got, dtype=float)), np.asarray(ref, dtype=float)
+        if a is None or a.shape != b.shape or not np.all(np.isfinite(a)) or not np.all(np.abs(a - b) <= ATOL + rt * scale):
+            out.fail(prefix + key, f'{what}: got {None if a is None else a.tolist()} expected {b.tolist()}' + where)
+    d = o['dis']
+    chk('dis:function', d['f'], f_ref, fs, 'per-observation values')
+    chk('dis:gradient', d['g'], g_ref, gs, f'per-observation gradients (sorted free names {names})')
+    chk('dis:hessian', d['h'], h_ref, hs, 'per-observation Hessians')
+    chk('dis:bhhh', d['b'], b_ref, bs, 'per-observation BHHH')
+    chk('agg_g_only:gradient', o['agg_g_only']['g'], g_ref.sum(0), gs * n_rows, 'aggregated gradient requested alone')
+    if o['bio_names'] != names:
+        out.fail(prefix + 'biogeme:free_beta_names', f'{o["bio_names"]} vs {names}')
+    else:
+        chk('biogeme:function', o['bio']['f'], f_ref.sum(), fs * n_rows, 'BIOGEME log likelihood')
+        chk('biogeme:gradient', o['bio']['g'], g_ref.sum(0), gs * n_rows, 'BIOGEME gradient')
+        chk('biogeme:hessian', o['bio']['h'], h_ref.sum(0), hs * n_rows, 'BIOGEME Hessian')
+        chk('biogeme:bhhh', o['bio']['b'], b_ref.sum(0), bs * n_rows, 'BIOGEME BHHH')
+    return out
+
+
+
 SUBCHECKS = [
     SubCheck('derivatives', strat, judge, render_case, dict(quick=1600, thorough=60000),
              'differentiable random expression DAGs x tables x parameter points; every entry point '
@@ -538,5 +721,13 @@ SUBCHECKS = [
              'tools.derivatives findiff_g / findiff_h / check_derivatives on generated smooth functions with exact '
              'derivatives (quadratic + exponential + product-of-sines): differences reported must be small; non-trivial: '
              'non-zero cross derivatives and coordinates that get different step sizes'),
+    SubCheck('integrals', strat_integrals, judge_integrals,
+             lambda c: f"{c['mode']}: {refsem.render(c['roots'][0], c['shared'])[:300]}",
+             dict(quick=500, thorough=12000),
+             'derivatives THROUGH the simulation and integration operators: MonteCarlo(f) and log(MonteCarlo(exp(f))) with random '
+             'coefficients (parameter x draw x attribute) and deterministic user-defined draws, Integrate(g x normal density) with free '
+             'parameters in g; per-observation value / gradient / Hessian / BHHH, gradient alone, and BIOGEME likelihood derivatives '
+             'against reference jets (mean over draws of the jets; quadrature of the jets); non-trivial: >= 2 free parameters and '
+             'a non-zero Hessian', max_skip_fraction=0.4),
 ]
 RULE = ' | '.join(f'{s.name}: {s.rule}' for s in SUBCHECKS)
